@@ -82,22 +82,24 @@ def full_of(st):
 
 def random_local_op(rng, node, state_hint=None, bulk_bias=0.15):
     """one local op line for `node`; ids/patterns/topics drawn from small overlapping pools"""
-    r = rng.random()
-    if r < 0.16:
+    kinds = ["screate", "sdelete", "subcreate", "subdelete", "subdelsess", "subdelpeer", "sdelpeer", "tset", "tdel"]
+    weights = [0.16, 0.10, 0.26, 0.10, bulk_bias / 3, bulk_bias / 3, bulk_bias / 3, 0.22, 0.08]
+    k = rng.choices(kinds, weights)[0]
+    if k == "screate":
         will = rng.choice(["-", "-", "w/t:627965:1:0"])
         return f"screate {node} {rng.choice(SESS)} {rng.choice(CLIENTS)} {rng.choice(MOUNTS)} {will}"
-    if r < 0.26:
+    if k == "sdelete":
         return f"sdelete {node} {rng.choice(SESS)}"
-    if r < 0.52:
+    if k == "subcreate":
         return f"subcreate {node} {rng.choice(SESS)} {rng.choice(PATTERNS)} {rng.choice([0, 1, 2])}"
-    if r < 0.62:
+    if k == "subdelete":
         return f"subdelete {node} {rng.choice(SESS)} {rng.choice(PATTERNS)}"
-    if r < 0.62 + bulk_bias / 3:
+    if k == "subdelsess":
         return f"subdelsess {node} {rng.choice(SESS)}"
-    if r < 0.62 + 2 * bulk_bias / 3:
+    if k == "subdelpeer":
         return f"subdelpeer {node} {rng.choice(PEERS)}"
-    if r < 0.62 + bulk_bias:
+    if k == "sdelpeer":
         return f"sdelpeer {node} {rng.choice(PEERS)}"
-    if r < 0.92:
-        return f"tset {node} {rng.choice(TOPICS)} {rng.choice(['01', '02', '0304'])} {rng.choice([0, 1])} 1"
+    if k == "tset":
+        return f"tset {node} {rng.choice(TOPICS)} {rng.choice(['01', '02', '0304', '05'])} {rng.choice([0, 1])} 1"
     return f"tdel {node} {rng.choice(TOPICS)}"
